@@ -142,7 +142,10 @@ func (n *smpNet) honestRun(ini, res *party, question string, sIni, sRes []byte, 
 	n.note(ini)
 	n.l.enqueue(ini, ts)
 	n.pump(hook)
-	// the responder has been asked for the secret
+	// the responder has been asked for the secret (nobody answers in a conversation that has ended)
+	if !res.c.IsEncrypted() {
+		return
+	}
 	ts, _ = n.w.smpSecret(res, sRes)
 	n.note(res)
 	n.l.enqueue(res, ts)
@@ -154,6 +157,31 @@ func (n *smpNet) evOf(p *party) *[]string {
 		return &n.evA
 	}
 	return &n.evB
+}
+
+
+// an exponent r (big endian, n bytes) for which the proof hash c = SHA256(ix ‖ MPI(g1^r)) starts with a
+// zero byte: as a number the hash is then shorter than 32 bytes - honest, and rare (1 in 256)
+var zeroHashCache = map[string][]byte{}
+
+func zeroHashExponent(n int, ix byte) []byte {
+	key := fmt.Sprintf("%d/%d", n, ix)
+	if r, ok := zeroHashCache[key]; ok {
+		return r
+	}
+	for k := int64(3); ; k++ {
+		gx := new(big.Int).Exp(big.NewInt(2), big.NewInt(k), bigP)
+		h := sha256.New()
+		h.Write([]byte{ix})
+		h.Write(otr3.AppendMPI(nil, gx))
+		if h.Sum(nil)[0] == 0 {
+			r := make([]byte, n)
+			kb := big.NewInt(k).Bytes()
+			copy(r[n-len(kb):], kb)
+			zeroHashCache[key] = r
+			return r
+		}
+	}
 }
 
 func (g *gen) smpHonest(w *world) {
@@ -170,6 +198,22 @@ func (g *gen) smpHonest(w *world) {
 		s1, s2, equal := g.secretPair()
 		q := []string{"", "what is it?"}[g.r.Intn(2)]
 		*n.evOf(ini), *n.evOf(res) = nil, nil
+		if g.r.Intn(6) == 0 {
+			// a question with a NUL byte cannot be written (it is NUL terminated on the wire): the call
+			// has to refuse it; sent as it is, the peer reads a shorter question and garbage after it,
+			// says nothing, and the initiator waits for ever
+			ts, err := n.w.smpStart(ini, "who\x00are you", s1)
+			olog.ok("C11")
+			if err == nil || len(ts) > 0 {
+				olog.viol("C11", "question-with-nul-accepted", fmt.Sprintf("OTRv%d: StartAuthenticate accepts a question containing a NUL byte (%d messages, err %v): the run can never complete", version, len(ts), err))
+				n.l.enqueue(ini, ts)
+				n.pump(nil)
+				ts, _ = n.w.smpAbort(ini)
+				n.l.enqueue(ini, ts)
+				n.pump(nil)
+			}
+			continue
+		}
 		restart := g.r.Intn(4)
 		switch restart {
 		case 1: // the initiator starts over while its first attempt is still unanswered
@@ -184,7 +228,14 @@ func (g *gen) smpHonest(w *world) {
 			*n.evOf(ini), *n.evOf(res) = nil, nil
 		}
 		g.dist[fmt.Sprintf("smp:honest:restart%d", restart)]++
+		if g.r.Intn(3) == 0 {
+			// the initiator's r2 (third number it draws) makes c2 a hash with a leading zero byte
+			plen := 192
+			ini.rnd.forced = [][]byte{g.bytesN(plen), g.bytesN(plen), zeroHashExponent(plen, 1)}
+			g.dist["smp:honest:c2-with-leading-zero"]++
+		}
 		n.honestRun(ini, res, q, s1, s2, nil)
+		ini.rnd.forced = nil
 		olog.ok("C11")
 		ei, er := *n.evOf(ini), *n.evOf(res)
 		desc := fmt.Sprintf("OTRv%d, question %q, secrets equal=%v (%q / %q), restart variant %d: initiator events %v, responder events %v", version, q, equal, s1, s2, restart, ei, er)
@@ -335,6 +386,10 @@ func (g *gen) deviantPayload(tlvType uint16, value []byte) ([]byte, string) {
 		mpis[6], mpis[7], mpis[8], mpis[9], mpis[10] = kp, kp, new(big.Int).SetBytes(h.Sum(nil)), big.NewInt(1), big.NewInt(1)
 		return append(question, otr3.AppendMPIs(otr3.AppendWord(nil, uint32(len(mpis))), mpis...)...), fmt.Sprintf("Pb=Qb=%dp with cP=H(5,0,0)", k)
 	}
+	if g.r.Intn(8) == 0 { // one MPI more, the count field says so too
+		more := append(append([]*big.Int{}, mpis...), big.NewInt(int64(1+g.r.Intn(1000))))
+		return append(question, otr3.AppendMPIs(otr3.AppendWord(nil, uint32(len(more))), more...)...), "one-mpi-more"
+	}
 	switch g.r.Intn(10) {
 	case 0: // one MPI fewer
 		mpis = mpis[:len(mpis)-1]
@@ -376,6 +431,8 @@ func (g *gen) smpDeviant(w *world) {
 	}
 	q := []string{"", "q?"}[g.r.Intn(2)]
 	done := false
+	disconnectFirst := false
+	var victim *party
 	what := ""
 	var victimEv []string
 	hook := func(to *party, m []byte) [][]byte {
@@ -388,16 +445,29 @@ func (g *gen) smpDeviant(w *world) {
 		}
 		for i, t := range types {
 			if int(t) == target || target == 2 && t == 7 {
+				from := n.a
+				if to == n.a {
+					from = n.b
+				}
+				if !g.forceDegenerate && g.r.Intn(6) == 0 {
+					// the genuine SMP TLV, but behind a disconnect TLV in the same message: the session
+					// ends, whatever comes after it must not crash the receiver
+					done = true
+					disconnectFirst = true
+					victim = to
+					what = fmt.Sprintf("SMP message type %d with a disconnect TLV in front of it", t)
+					var out [][]byte
+					for _, r := range n.w.sendTLVs(from, []uint16{1, t}, [][]byte{{}, values[i]}) {
+						out = append(out, r)
+					}
+					return out
+				}
 				dev, w0 := g.deviantPayload(t, values[i])
 				if dev == nil {
 					return [][]byte{m}
 				}
 				done = true
 				what = fmt.Sprintf("SMP message type %d with %s", t, w0)
-				from := n.a
-				if to == n.a {
-					from = n.b
-				}
 				var out [][]byte
 				for _, r := range n.w.sendTLVs(from, []uint16{t}, [][]byte{dev}) {
 					out = append(out, r)
@@ -447,6 +517,35 @@ func (g *gen) smpDeviant(w *world) {
 			key = "otrv2-degenerate-group-element"
 		}
 		olog.viol("C12", key, fmt.Sprintf("OTRv%d: the receiver of %s reported success: %v", version, what, victimEv))
+	}
+	if disconnectFirst {
+		// the session is over on the receiving side: no recovery run inside it, but in the next one
+		if w.dead {
+			olog.viol("C12", "smp-panic", fmt.Sprintf("a call panicked after %s", what))
+			olog.viol("C13", "receive-panics:smp", fmt.Sprintf("a call panicked after %s", what))
+			return
+		}
+		for _, p := range []*party{n.a, n.b} {
+			ts, _ := w.end(p)
+			n.l.enqueue(p, ts)
+			n.pump(nil)
+		}
+		w.tick(61)
+		n.l.enqueue(n.a, []otr3.ValidMessage{w.query(n.a)})
+		n.pump(nil)
+		if !n.a.c.IsEncrypted() || !n.b.c.IsEncrypted() || w.dead {
+			return
+		}
+		n.evA, n.evB = nil, nil
+		other := n.a
+		if victim == n.a {
+			other = n.b
+		}
+		n.honestRun(other, victim, "", s, s, nil) // the peer of the one that got the odd message starts
+		if !hasEv(n.evA, "smp:6") || !hasEv(n.evB, "smp:6") {
+			olog.viol("C12", "no-recovery-after-deviant-message", fmt.Sprintf("OTRv%d: after %s, End() on both sides and a new key exchange, the first honest run does not succeed: A %v, B %v", version, what, n.evA, n.evB))
+		}
+		return
 	}
 	// out-of-sequence user calls must not crash either
 	switch g.r.Intn(4) {
